@@ -34,11 +34,13 @@ Example FV_dots_example :
   resolved up s_d [dotdot] = Ok RNone /\ resolved up s_d [dot; n_d] = Ok RNone /\
   resolved up s_d [n_d; dotdot; dotdot] = Ok RNone /\
   resolved up s_d [n_d; n_f; dotdot] = Err NotADirectory /\
-  reach (abs_tree s_d) (File 700).
+  reach (abs_tree s_d) (File 700) /\
+  lexnorm up [] [n_d; n_e; dotdot; dot; n_f] = [n_d; n_f] /\ lexnorm up [] [dotdot; n_d; dotdot] = [dotdot].
 Proof.
   split; [exact s_d_inv|].
   split; [eexists; eexists; split; [vm_compute; reflexivity|split; reflexivity]|].
   repeat split; try (vm_compute; reflexivity).
+  all: try (vm_compute; reflexivity).
   assert (TF : tilde_free up [n_d; n_e; dotdot; n_f]) by tf.
   assert (E : exists r, resolved up s_d [n_d; n_e; dotdot; n_f] = Ok r /\ r <> RNone /\ cur_node s_d r = File 700).
   { eexists. split; [vm_compute; reflexivity|]. split; [discriminate|vm_compute; reflexivity]. }
